@@ -149,6 +149,24 @@ pub fn verify3(hash: &str, msg: &[u8], sig: &[u8], pk: &[u8]) -> [Out<()>; 3] {
     })
 }
 
+/// SigningKey::try_sign: (signature, key bytes afterwards)
+pub fn try_sign(hash: &str, blob: &[u8], msg: &[u8]) -> (Out<Vec<u8>>, Out<Vec<u8>>) {
+    use hbs_lms::signature::SignerMut;
+    with_hash!(hash, H => {
+        let mut key_after: Out<Vec<u8>> = Out::Err;
+        let r = catch_res(|| {
+            let mut sk = hbs_lms::SigningKey::<H>::from_bytes(blob)?;
+            let r = sk.try_sign(msg).map(|s| s.as_ref().to_vec());
+            key_after = Out::Ok(sk.as_slice().to_vec());
+            r
+        });
+        if r == Out::Panic {
+            key_after = Out::Panic;
+        }
+        (r, key_after)
+    })
+}
+
 pub fn lifetime(hash: &str, blob: &[u8]) -> Out<u64> {
     with_hash!(hash, H => catch_res(|| hbs_lms::SigningKey::<H>::from_bytes(blob)?.get_lifetime()))
 }
